@@ -1212,7 +1212,7 @@ pub fn c18(c: &Collector, g: &mut Guard) {
         }
     }
     // (2) every subset of stops on small widths x every cursor x {HT, HTS, TBC h}
-    let maxsub = if c.thorough() { 12 } else { 8 };
+    let maxsub = if c.thorough() { 13 } else { 10 };
     let mut bases: Vec<Base> = Vec::new();
     for w in 1..=maxsub {
         for mask in 0u32..(1 << w) {
@@ -1428,7 +1428,7 @@ pub fn c18(c: &Collector, g: &mut Guard) {
         },
     );
     // (4) histories of HTS / TBC / HT / reset / width changes on small widths (BFS, full-key dedup)
-    let bdepth = if c.thorough() { 6 } else { 4 };
+    let bdepth = if c.thorough() { 6 } else { 5 };
     let mut seeds: Vec<Base> = Vec::new();
     for (w, l) in [(10u32, 1u32), (9, 2), (17, 1)] {
         if let Ok(s0) = build(w, l, &[]) {
@@ -1659,7 +1659,7 @@ pub fn c14(c: &Collector, g: &mut Guard) {
         },
     );
     // histories save^a ; w ; restore^b
-    let depth = if c.thorough() { 6 } else { 4 };
+    let depth = if c.thorough() { 6 } else { 5 };
     let sspec = Spec {
         geoms: vec![(3, 3)],
         fills: vec![Fill::F0],
@@ -2345,17 +2345,20 @@ pub fn c08(c: &Collector, g: &mut Guard) {
     let bases_all = rendition_bases(c, true);
     let bases_few = rendition_bases(c, false);
     // (1) every single code 0..=9999
-    let b1 = if c.thorough() { &bases_all } else { &bases_few };
+    // (both tiers: from every rendition base; the sweep costs about a second)
+    let b1 = &bases_all;
     sweep(c, b1, |_| (0..=9999u32).map(|k| Op::Sgr(vec![k])).collect(), |c, t, local| {
         c08_judge(c, t, "E4.single", local);
     });
     // (2) pairs over the documented codes; triples over a core
     let codes = documented_sgr_codes();
     let core: Vec<u32> = vec![0, 1, 7, 22, 27, 31, 39, 44, 49, 91, 104, 38, 48, 5, 2, 99, 255, 256, 16, 232, 3, 9, 4, 25];
-    let b2: Vec<Base> = bases_few.iter().take(if c.thorough() { 40 } else { 6 }).cloned().collect();
+    // quick: pairs and core triples from 40 bases; thorough: pairs and core triples from every base,
+    // triples over all documented codes from 40
+    let thorough = c.thorough();
+    let b2: Vec<Base> = if thorough { bases_all.clone() } else { bases_few.iter().take(40).cloned().collect() };
     let codes2 = codes.clone();
     let core2 = core.clone();
-    let thorough = c.thorough();
     sweep(
         c,
         &b2,
@@ -2366,23 +2369,45 @@ pub fn c08(c: &Collector, g: &mut Guard) {
                     v.push(Op::Sgr(vec![*a, *b]));
                 }
             }
-            if thorough {
-                for a in &core2 {
-                    for b in &core2 {
-                        for d in &core2 {
-                            v.push(Op::Sgr(vec![*a, *b, *d]));
-                        }
+            for a in &core2 {
+                for b in &core2 {
+                    for d in &core2 {
+                        v.push(Op::Sgr(vec![*a, *b, *d]));
                     }
                 }
             }
             v
         },
         |c, t, local| {
+            local.count("tuples");
             c08_judge(c, t, "E4.tuples", local);
         },
     );
+    if thorough {
+        let b2t: Vec<Base> = bases_few.iter().take(40).cloned().collect();
+        let codes2 = codes.clone();
+        sweep(
+            c,
+            &b2t,
+            move |_| {
+                let mut v = Vec::new();
+                for a in &codes2 {
+                    for b in &codes2 {
+                        for d in &codes2 {
+                            v.push(Op::Sgr(vec![*a, *b, *d]));
+                        }
+                    }
+                }
+                v
+            },
+            |c, t, local| {
+                local.count("all_triples");
+                c08_judge(c, t, "E4.triples", local);
+            },
+        );
+    }
     // (3) extended colour forms with every truncation, followed by a trailing 1
-    let b3: Vec<Base> = bases_few.iter().take(if c.thorough() { 12 } else { 4 }).cloned().collect();
+    let b3: Vec<Base> = bases_few.iter().take(if c.thorough() { 38 } else { 12 }).cloned().collect();
     sweep(
         c,
         &b3,
@@ -2396,7 +2421,7 @@ pub fn c08(c: &Collector, g: &mut Guard) {
                     v.push(Op::Sgr(vec![key, *n]));
                     v.push(Op::Sgr(vec![key, *n, 1]));
                     v.push(Op::Sgr(vec![key, *n, 4, 9, 1]));
-                    if thorough || *n % 5 == 0 || *n > 250 {
+                    {
                         v.push(Op::Sgr(vec![key, 2, *n, 7, 9]));
                         v.push(Op::Sgr(vec![key, 2, 7, *n, 9]));
                         v.push(Op::Sgr(vec![key, 2, 7, 9, *n]));
@@ -2456,7 +2481,7 @@ pub fn c08(c: &Collector, g: &mut Guard) {
         },
     );
     // (4) through the parser
-    let b4: Vec<Base> = bases_few.iter().take(3).cloned().collect();
+    let b4: Vec<Base> = bases_few.iter().take(if c.thorough() { 38 } else { 6 }).cloned().collect();
     let codes3 = codes.clone();
     sweep(
         c,
@@ -2497,6 +2522,7 @@ pub fn c08(c: &Collector, g: &mut Guard) {
     g.need(c, "drawn_after");
     g.need(c, "extended_forms");
     g.need(c, "long_lists");
+    g.need(c, "tuples");
     g.need(c, "parser_path_transitions");
 }
 
